@@ -7,6 +7,8 @@ V=$(cd "$(dirname "$0")/.." && pwd)
 DST=$V/seeded/$N; EV=/tmp/ev/$N
 mkdir -p $DST /tmp/ev
 [ "$SRC" != "$DST" ] && cp $SRC/patch.diff $SRC/meta.json $DST/ 2>/dev/null
+RET=$(python3 -c "import json;print(json.load(open('$DST/meta.json')).get('retired',''))" 2>/dev/null)
+[ -n "$RET" ] && { echo "RETIRED: $RET"; exit 0; }
 git -C /repo worktree remove --force $EV 2>/dev/null
 git -C /repo worktree add -q --detach $EV HEAD || exit 2
 (cd $EV && git apply $DST/patch.diff) || { echo "PATCH DOES NOT APPLY"; git -C /repo worktree remove --force $EV; exit 2; }
